@@ -1132,6 +1132,29 @@ func genC12(rng *rand.Rand, tier string) (cases []string) {
 		add("C12.net2pfx %d %s %s -", pick(rng, 1, 2), hx(b), sliceTok(m))
 		add("C12.net2pfxnm %s %s -", hx(b), sliceTok(m))
 	}
+	// the distinguished addresses (unspecified, loopback, broadcast, mapped zero, all ones) under
+	// the distinguished masks (/0, /1, full, full-1, /96, /32) of both lengths, for both
+	// families: the natural targets of a fast path or a special case
+	{
+		z4, z16 := make([]byte, 4), make([]byte, 16)
+		lo16 := append(make([]byte, 15), 1)
+		m0 := append(append([]byte{}, mappedPrefix...), 0, 0, 0, 0)
+		mlo := append(append([]byte{}, mappedPrefix...), 127, 0, 0, 1)
+		specials := [][]byte{z4, z16, lo16, m0, mlo, {127, 0, 0, 1}, {255, 255, 255, 255}, bytes.Repeat([]byte{0xff}, 16), {0, 0, 0, 1}, {128, 0, 0, 0}}
+		for _, ip := range specials {
+			for _, ml := range []int{4, 16} {
+				for _, ones := range []int{0, 1, 8, 31, 32, 95, 96, 97, 127, 128} {
+					if ones > ml*8 {
+						continue
+					}
+					mask := []byte(net.CIDRMask(ones, ml*8))
+					add("C12.net2pfx 1 %s %s %s", sliceTok(ip), sliceTok(mask), genProbes(rng, ip, mask))
+					add("C12.net2pfx 2 %s %s %s", sliceTok(ip), sliceTok(mask), genProbes(rng, ip, mask))
+					add("C12.net2pfxnm %s %s %s", sliceTok(ip), sliceTok(mask), genProbes(rng, ip, mask))
+				}
+			}
+		}
+	}
 	for i := 0; i < 500*scale; i++ {
 		ip := genIP(rng)
 		add("C12.ip2addr %d %s", fam(), sliceTok(ip))
